@@ -66,7 +66,9 @@ BOX(crypto_box)
 BOX(crypto_box_curve25519xchacha20poly1305)
 
 /* AEADs */
+#ifndef CM_AVAIL_DEFINED
 static int cm_avail = 1;
+#endif
 #define AEAD(P, AB, AVAIL) \
 static void p_##P##_encrypt(A) { cm_avail = (AVAIL); } \
 static int c_##P##_encrypt(A) { return P##_encrypt(b[0], (ULL *) (void *) b[1], b[2], l1, b[3], l2, NULL, b[4], b[5]); } \
